@@ -724,6 +724,39 @@ fn search_into_bytes() -> (usize, Option<Value>) {
     (n, None)
 }
 
+/// C18: repeated evaluation with fresh HashMaps (each has its own random hash seed) must give the same result
+fn search_determinism() -> (usize, Option<Value>) {
+    let mut n = 0;
+    for q in ["A=1&a=1", "a=1&A=1&b=2&B=2", "x=1&y=2&z=3&w=4&v=5", "k=2&k=1&K=1", "a-b=1&a=2&a.b=3&A=2"] {
+        let first = real_query(q);
+        for _ in 0..64 {
+            n += 1;
+            let again = real_query(q);
+            if again != first {
+                return (n, Some(json!({"fn": "query_string_to_normalized_map+canonicalize_query_to_string", "case": "same query, different results in one process", "input": q, "first": format!("{:?}", first), "later": format!("{:?}", again)})));
+            }
+        }
+    }
+    // folded request: outcome and returned URI must be the same every time
+    let (ts, now) = ts_now();
+    let body = b"b=2&c=3&d=4".to_vec();
+    let mut r = Req { method: "POST", path: "/".into(), query: "a=1".into(), headers: vec![("Host".into(), "example.amazonaws.com".into()), ("Content-Type".into(), "application/x-www-form-urlencoded".into())], body };
+    {
+        let mut merged = Req { method: "POST", path: "/".into(), query: "a=1&b=2&c=3&d=4".into(), headers: r.headers.clone(), body: vec![] };
+        sign_header(&mut merged, &ts, "us-east-1", "service", false, b"");
+        r.headers = merged.headers;
+    }
+    let first = validate(&r, now, "us-east-1", "service", SignatureOptions::url_encode_form());
+    for _ in 0..48 {
+        n += 1;
+        let again = validate(&r, now, "us-east-1", "service", SignatureOptions::url_encode_form());
+        if again != first {
+            return (n, Some(json!({"fn": "sigv4_validate_request", "case": "same folded request, different outcome or returned URI in one process", "first": format!("{:?}", first), "later": format!("{:?}", again)})));
+        }
+    }
+    (n, None)
+}
+
 fn witness(w: &Value) -> Value {
     match w["fn"].as_str().unwrap_or("") {
         "canonicalize_uri_path" => {
@@ -802,6 +835,9 @@ fn searches_for(pid: &str, strict_d6: bool) -> Vec<(&'static str, (usize, Option
     }
     if all || pid == "C05" {
         v.push(("requirements", search_requirements()));
+    }
+    if all || pid == "C18" {
+        v.push(("determinism", search_determinism()));
     }
     if all || pid == "C11" || pid == "C19" {
         v.push(("carriers", search_carriers()));
